@@ -462,6 +462,31 @@ func verbatimIDs(c *Ctx) {
 						continue
 					}
 					for _, cj := range conjuncts(ifs.Cond) {
+						// the test may live in a helper handed the relationship: isTopLevel(r)
+						if hc, isCall := ast.Unparen(cj).(*ast.CallExpr); isCall && len(hc.Args) == 1 {
+							if hf, _ := typeutil.Callee(d.pkg.TypesInfo, hc).(*types.Func); hf != nil && hf.Pkg() != nil && strings.HasPrefix(hf.Pkg().Path(), modPath+"/") {
+								if hfd, hpk := c.P.FuncDecl(objName(hf)); hfd != nil && hfd.Body != nil && len(hfd.Type.Params.List) == 1 && len(hfd.Type.Params.List[0].Names) == 1 {
+									pname := hfd.Type.Params.List[0].Names[0].Name
+									ast.Inspect(hfd.Body, func(y ast.Node) bool {
+										hb, isHB := y.(*ast.BinaryExpr)
+										if !isHB || hb.Op != token.EQL {
+											return true
+										}
+										if v, isC := constOf(hpk, hb.Y); !isC || !v.isStr() || v.str() != "DOCUMENT" {
+											return true
+										}
+										if hs, isSel := ast.Unparen(hb.X).(*ast.SelectorExpr); isSel && hs.Sel.Name == "ElementRefID" {
+											t := normText(exprText(c.P.Fset, hs.X))
+											if strings.HasPrefix(t, pname+".") {
+												docEnd = normText(exprText(c.P.Fset, hc.Args[0])) + strings.TrimPrefix(t, pname)
+											}
+										}
+										return true
+									})
+								}
+							}
+							continue
+						}
 						be, isBE := ast.Unparen(cj).(*ast.BinaryExpr)
 						if !isBE || be.Op != token.EQL {
 							continue
